@@ -85,6 +85,22 @@ func (o *CandidateNode) copyToYamlNode(node *yaml.Node) {
 	node.Value = o.Value
 	node.Anchor = o.Anchor
 
+	if o.Kind == ScalarNode {
+		inFlow := o.Parent != nil && o.Parent.Style&FlowStyle != 0
+		switch {
+		case o.Style&FoldedStyle != 0 && (strings.Contains(o.Value, "\n ") || strings.Contains(o.Value, "\n\t") || strings.HasSuffix(o.Value, "\n\n")):
+			// the yaml library folds such text wrongly (a more indented line gains a blank line, trailing
+			// blank lines grow on every pass): the value is kept by writing it as a literal block
+			node.Style = (node.Style &^ yaml.FoldedStyle) | yaml.LiteralStyle
+		case o.Tag == "!!null" && o.Value == "" && node.Style == 0 && (inFlow || o.IsMapKey):
+			// the yaml library writes an empty scalar in a flow collection or as a key as '' - a string
+			node.Value = "null"
+		case o.Tag == "!!timestamp" && node.Style == 0 && inFlow && strings.Contains(o.Value, ":"):
+			// the yaml library quotes a plain scalar holding ':' in a flow collection - a string: keep the type
+			node.Style = yaml.TaggedStyle
+		}
+	}
+
 	// node.Alias = TODO - find Alias in our own structure
 	// might need to be a post process thing
 
